@@ -173,3 +173,26 @@ int main() {
     fails = sorted(set(re.findall(r'FAILS: (.*)', out)))
     return {'reproduced': rc != 0 and bool(fails), 'failing_checks': fails, 'program': p,
             'input': {'hash words tried': cands}, 'output': out[-600:]}
+
+
+def replay_hash_determinism(ctx, g, o, inputs):
+    """Equal bytes at different addresses/alignments must hash equally (real library)."""
+    prog = r'''
+#include <occa/utils/hash.hpp>
+#include <cstdio>
+#include <cstring>
+int main() {
+  alignas(8) char A[64], B[64]; int bad = 0;
+  for (int n = 0; n <= 24 && !bad; ++n) for (int oa = 0; oa < 8 && !bad; ++oa) for (int ob = 0; ob < 8 && !bad; ++ob) {
+    for (int i = 0; i < 64; ++i) { A[i] = (char) (i * 37 + 11); B[i] = (char) (i * 91 + 5); }
+    memcpy(B + ob, A + oa, n);
+    if (occa::hash(A + oa, n) != occa::hash(B + ob, n)) { printf("FAILS: %d equal bytes at offsets %d / %d of 8-aligned arrays hash differently\n", n, oa, ob); bad = 1; }
+  }
+  printf(bad ? "REPRODUCED\n" : "not reproduced\n");
+  return bad;
+}
+'''
+    rc, out, src = compile_run(ctx, 'replay_hash_det', prog)
+    p = keep_replay_source(ctx, g, prog)
+    return {'reproduced': rc != 0 and 'FAILS' in out, 'program': p, 'output': out[-500:],
+            'how': 'occa::hash on equal byte sequences placed at all offsets 0..7 of two 8-aligned arrays, lengths 0..24'}
